@@ -6,6 +6,7 @@ import (
 	"os"
 	"path/filepath"
 	"regexp"
+	"sort"
 	"strings"
 	"sync"
 	"time"
@@ -100,15 +101,16 @@ func buildCogen(c *vf.Check) string {
 // ---------------------------------------------------------------- family run
 
 type srcOpts struct {
-	Budget   int
-	Deleg    bool   // link the delegate generators D2..D4
-	Import   string // "dot" (default) | "named" | "renamed"
-	Trailing string // "needed" (default) | "always"
-	Stage    bool   // keep the unoptimised stage (C07)
-	Opt      bool   // declare the helpers of the eta-shape closures in every package
-	By       bool   // programs are bystanders: plain functions next to a generator (C13)
-	PerPkg   int    // programs per package (crash isolation granularity)
-	Race     bool
+	Budget      int
+	Deleg       bool   // link the delegate generators D2..D4
+	Import      string // "dot" (default) | "named" | "renamed"
+	Trailing    string // "needed" (default) | "always"
+	Stage       bool   // keep the unoptimised stage (C07)
+	Opt         bool   // declare the helpers of the eta-shape closures in every package
+	By          bool   // programs are bystanders: plain functions next to a generator (C13)
+	CompileOnly bool   // stop after compiling and building the generated packages (C11)
+	PerPkg      int    // programs per package (crash isolation granularity)
+	Race        bool
 }
 
 type srcJob struct {
@@ -309,12 +311,18 @@ func runSrcFamilyN(c *vf.Check, cases []srcCase, callsOf func(i int) int, o srcO
 	if o.Trailing == "" {
 		o.Trailing = "needed"
 	}
-	api, importLine := "", "\t. \"github.com/goghcrow/go-co\"\n"
+	api, importLine, useSeq := "", "\t. \"github.com/goghcrow/go-co\"\n", ""
 	switch o.Import {
 	case "named":
 		api, importLine = "co.", "\t\"github.com/goghcrow/go-co\"\n"
 	case "renamed":
 		api, importLine = "gc.", "\tgc \"github.com/goghcrow/go-co\"\n"
+	case "dot+seq": // the runtime package is already imported by the source, under its default name
+		importLine += "\t\"github.com/goghcrow/go-co/seq\"\n"
+		useSeq = "var _ seq.Iterator[int]\n"
+	case "dot+sq": // ... or under another name
+		importLine += "\tsq \"github.com/goghcrow/go-co/seq\"\n"
+		useSeq = "var _ sq.Iterator[int]\n"
 	}
 	progs := newUniq()
 	run := &srcRun{}
@@ -379,7 +387,7 @@ func runSrcFamilyN(c *vf.Check, cases []srcCase, callsOf func(i int) int, o srcO
 			// a side-effect import and an import used only by non-generator code: both must survive
 			return "//go:build co\n\npackage " + pkg + "\n\nimport (\n" + importLine + "\t\"scratch/rt\"\n\t_ \"scratch/side" + pkg + "\"\n\t\"scratch/sidecount\"\n)\n\nvar _ = rt.Y\nvar _ " + api + "Iter[int]\nvar _ = sidecount.Has\n\n"
 		}
-		return "//go:build co\n\npackage " + pkg + "\n\nimport (\n" + importLine + "\t\"scratch/rt\"\n)\n\nvar _ = rt.Y\nvar _ " + api + "Iter[int]\n\n"
+		return "//go:build co\n\npackage " + pkg + "\n\nimport (\n" + importLine + "\t\"scratch/rt\"\n)\n\nvar _ = rt.Y\nvar _ " + api + "Iter[int]\n" + useSeq + "\n"
 	}
 	if o.By {
 		writeFile(filepath.Join(dir, "sidecount", "sidecount.go"), "package sidecount\n\nvar Loaded = map[string]bool{}\n\nfunc Has(s string) int {\n\tif Loaded[s] {\n\t\treturn 1\n\t}\n\treturn 0\n}\n")
@@ -422,6 +430,9 @@ func runSrcFamilyN(c *vf.Check, cases []srcCase, callsOf func(i int) int, o srcO
 		}}
 	run.Status, run.Packages, run.CompilerRuns = compileUnits(c, dir, u)
 	npk := run.Packages
+	if o.CompileOnly {
+		return run
+	}
 
 	// driver
 	var imp, reg strings.Builder
@@ -488,8 +499,9 @@ func compileUnits(c *vf.Check, dir string, u unitSpec) (status []string, npk int
 	}
 	status = make([]string, u.N)
 	npk = (u.N + u.PerPkg - 1) / u.PerPkg
+	pkgName := func(pk int) string { return fmt.Sprintf("gen%03d", pk) }
 	writePkg := func(pk int) string {
-		name := fmt.Sprintf("gen%03d", pk)
+		name := pkgName(pk)
 		d := filepath.Join(dir, name)
 		os.RemoveAll(d)
 		os.RemoveAll(d + "_tmp")
@@ -505,87 +517,127 @@ func compileUnits(c *vf.Check, dir string, u unitSpec) (status []string, npk int
 		return d
 	}
 	var mu sync.Mutex
-	sem := make(chan struct{}, 16)
-	var wg sync.WaitGroup
 	var fatal string
+	setFatal := func(s string) {
+		mu.Lock()
+		if fatal == "" {
+			fatal = s
+		}
+		mu.Unlock()
+	}
+	// phase 0: write every package; source gate once for the whole module: rendered go-co source must
+	// type-check under -tags co (else it is a renderer / grammar bug, never a verdict)
+	var rels []string
 	for pk := 0; pk < npk; pk++ {
-		wg.Add(1)
-		go func(pk int) {
-			defer wg.Done()
-			sem <- struct{}{}
-			defer func() { <-sem }()
-			for attempt := 0; attempt < 3*u.PerPkg+5; attempt++ {
-				mu.Lock()
-				d := writePkg(pk)
-				compilerRuns++
-				mu.Unlock()
-				rel := "./" + filepath.Base(d) + "/"
-				// source gate: rendered go-co source must type-check under -tags co
-				if out, err := c.S.Run(dir, nil, "go", "build", "-tags", "co", rel); err != nil {
-					mu.Lock()
-					fatal = "rendered go-co source does not build under -tags co (renderer / grammar bug):\n" + vf.Trunc(out, 2000)
-					mu.Unlock()
-					return
-				}
-				env := []string{}
-				if u.Stage {
-					env = append(env, "GOCO_VERIF_STAGE_DIR="+d+"stage")
-					os.RemoveAll(d + "stage")
-				}
-				out, err := c.S.Run(dir, env, cogen, "gogen", d)
-				if err != nil {
-					i := strings.Index(out, "COMPILER-PANIC")
-					culprit := -1
-					msg := "compiler exited: " + vf.Trunc(out, 300)
-					if i >= 0 {
-						msg = strings.SplitN(out[i:], "\n", 2)[0]
-						if j := strings.LastIndex(out[:i], "visit file: "); j >= 0 {
-							culprit = progOfLine(strings.SplitN(out[j:], "\n", 2)[0])
-						}
-					}
-					if culprit < 0 {
-						mu.Lock()
-						fatal = "cannot attribute compiler failure to a program: " + msg
-						mu.Unlock()
-						return
-					}
-					mu.Lock()
-					status[culprit] = "panic: " + msg
-					mu.Unlock()
-					continue
-				}
-				out, err = c.S.Run(dir, nil, "go", "build", "-gcflags=-e", rel)
-				if err != nil {
-					n := 0
-					mu.Lock()
-					for _, ln := range strings.Split(out, "\n") {
-						if !strings.Contains(ln, ".go:") {
-							continue
-						}
-						if p := progOfLine(ln); p >= 0 && p < u.N && status[p] == "" {
-							status[p] = "build: " + strings.TrimSpace(ln)
-							n++
-						}
-					}
-					mu.Unlock()
-					if n == 0 {
-						mu.Lock()
-						fatal = "cannot attribute build failure of generated code:\n" + vf.Trunc(out, 2000)
-						mu.Unlock()
-						return
-					}
-					continue
-				}
-				if u.Stage {
-					prepareStage(c, dir, d)
-				}
+		writePkg(pk)
+		rels = append(rels, "./"+pkgName(pk)+"/")
+	}
+	if npk == 0 {
+		return
+	}
+	if out, err := c.S.Run(dir, nil, "go", append([]string{"build", "-tags", "co"}, rels...)...); err != nil {
+		vf.Machinery("rendered go-co source does not build under -tags co (renderer / grammar bug):\n%s", vf.Trunc(out, 2000))
+	}
+	// the real compiler on one package, isolating units that make it panic
+	compilePkg := func(pk int) {
+		for attempt := 0; attempt < u.PerPkg+3; attempt++ {
+			mu.Lock()
+			d := filepath.Join(dir, pkgName(pk))
+			if attempt > 0 {
+				d = writePkg(pk)
+			}
+			compilerRuns++
+			mu.Unlock()
+			env := []string{}
+			if u.Stage {
+				env = append(env, "GOCO_VERIF_STAGE_DIR="+d+"stage")
+				os.RemoveAll(d + "stage")
+			}
+			out, err := c.S.Run(dir, env, cogen, "gogen", d)
+			if err == nil {
 				return
 			}
-		}(pk)
+			i := strings.Index(out, "COMPILER-PANIC")
+			culprit := -1
+			msg := "compiler exited: " + vf.Trunc(out, 300)
+			if i >= 0 {
+				msg = strings.SplitN(out[i:], "\n", 2)[0]
+				if j := strings.LastIndex(out[:i], "visit file: "); j >= 0 {
+					culprit = progOfLine(strings.SplitN(out[j:], "\n", 2)[0])
+				}
+			}
+			if culprit < 0 || culprit >= u.N {
+				setFatal("cannot attribute compiler failure to a program: " + msg)
+				return
+			}
+			mu.Lock()
+			status[culprit] = "panic: " + msg
+			mu.Unlock()
+		}
 	}
-	wg.Wait()
-	if fatal != "" {
-		vf.Machinery("%s", fatal)
+	parallel := func(pks []int, f func(pk int)) {
+		sem := make(chan struct{}, 16)
+		var wg sync.WaitGroup
+		for _, pk := range pks {
+			wg.Add(1)
+			go func(pk int) {
+				defer wg.Done()
+				sem <- struct{}{}
+				defer func() { <-sem }()
+				f(pk)
+			}(pk)
+		}
+		wg.Wait()
+	}
+	todo := make([]int, npk)
+	for pk := range todo {
+		todo[pk] = pk
+	}
+	for round := 0; round < u.PerPkg+5 && len(todo) > 0; round++ {
+		parallel(todo, compilePkg)
+		if fatal != "" {
+			vf.Machinery("%s", fatal)
+		}
+		// build the generated packages (without the tag) in one go; units whose output does not build are
+		// recorded and their packages recompiled without them
+		var brel []string
+		for _, pk := range todo {
+			brel = append(brel, "./"+pkgName(pk)+"/")
+		}
+		out, err := c.S.Run(dir, nil, "go", append([]string{"build", "-gcflags=-e"}, brel...)...)
+		if err == nil {
+			break
+		}
+		again := map[int]bool{}
+		n := 0
+		for _, ln := range strings.Split(out, "\n") {
+			if !strings.Contains(ln, ".go:") {
+				continue
+			}
+			if p := progOfLine(ln); p >= 0 && p < u.N && status[p] == "" {
+				status[p] = "build: " + strings.TrimSpace(ln)
+				again[p/u.PerPkg] = true
+				n++
+			}
+		}
+		if n == 0 {
+			vf.Machinery("cannot attribute build failure of generated code:\n%s", vf.Trunc(out, 2000))
+		}
+		todo = todo[:0]
+		for pk := range again {
+			todo = append(todo, pk)
+		}
+		sort.Ints(todo)
+		for _, pk := range todo {
+			writePkg(pk)
+		}
+	}
+	if u.Stage {
+		all := make([]int, npk)
+		for pk := range all {
+			all[pk] = pk
+		}
+		parallel(all, func(pk int) { prepareStage(c, dir, filepath.Join(dir, pkgName(pk))) })
 	}
 	return
 }
